@@ -20,7 +20,7 @@ from vlib.core import Stage, fail
 ID = "C15"
 MANIFEST = {
     "category": "exploration",
-    "text": "Schedule exploration by generated-input search with a differential oracle: deep AHBs (up to 40/100 nodes) with >= 3 free-text data elements whose inputs are pairwise different and whose expressions are dense in format constraints x content evaluation results x a schedule of yield counts consumed by the harness's asynchronous format-constraint / requirement-constraint evaluators, hints provider and package resolver. For every free-text element that the run reports, its ValidationResultInContext must equal the result of validate_data_element_freetext on a fresh copy of that element alone (nothing yields; segment status taken from the whole run); the multiset of (format-constraint key, text seen) pairs logged during the whole run must equal the union of the pairs logged by the single runs, i.e. every constraint was evaluated against its own element's input. A drawn subset of the format-constraint methods are plain functions that read the documented context variable themselves; in the element's own run every such evaluation must have seen exactly the element's input.",
+    "text": "Schedule exploration by generated-input search with a differential oracle: deep AHBs (up to 40/100 nodes) with >= 3 free-text data elements whose inputs are pairwise different and whose expressions are dense in format constraints x content evaluation results x a schedule of yield counts consumed by the harness's asynchronous format-constraint / requirement-constraint evaluators, hints provider and package resolver. For every free-text element that the run reports, its ValidationResultInContext must equal the result of validate_data_element_freetext on a fresh copy of that element alone (nothing yields; segment status taken from the whole run); the multiset of (format-constraint key, text seen) pairs logged during the whole run must equal the union of the pairs logged by the single runs, i.e. every constraint was evaluated against its own element's input. A drawn subset of the format-constraint methods are plain functions that read the documented context variable themselves; in the element's own run every such evaluation must have seen exactly the element's input. Every visited segment with several free-text elements is also validated through validate_segment under the same schedule, below the status its group received; its rows must equal those of the whole run.",
     "note": "Trusted: the schedule harness (vlib/sched.py); the format-constraint oracle function is pure in (key, text) and echoes the text, so a foreign input changes verdict or message. Interleavings are those of one asyncio event loop. Process configuration by shard (vlib/sut.py; recorded in replay files): plain / parse caches preheated beyond their size / warnings attributed to ahbicht raised as errors / logging fully enabled with every record rendered.",
     "technique": "property-based schedule exploration with a differential oracle (element inside the concurrent run vs the element alone) and a log invariant",
 }
@@ -106,6 +106,28 @@ def check(case):
             if alone.value != rows[element["d"]]:
                 fail("element-differs", f"element {element['d']} with input {element['inp']!r} and expression "
                      f"{element['expr']['s']!r}: inside the run {rows[element['d']].validation_result}, alone {alone.value.validation_result}")  # fmt: skip
+    # the second observation point: validate_segment on every visited segment with several free-text elements, under
+    # the same schedule, below the status its group got in the whole run - the rows must be those of the whole run
+    from ahbicht.validation.validation import validate_segment
+
+    def walk(group):
+        for sub in group["groups"]:
+            walk(sub)
+        for seg in group["segs"]:
+            if seg["d"] in rows and group["d"] in rows and sum(1 for e in seg["des"] if e["t"] == "ft") >= 2:
+                _configure(tree, cer, case["delays"], sync_fc)
+                parent = rows[group["d"]].validation_result.requirement_validation
+                res = sut.call(validate_segment, vtree.build_segment(seg), parent, soll)
+                if not res.ok:
+                    fail("raises", f"validate_segment({seg['d']}) below {parent} under schedule {case['delays']} raised {res!r}")
+                for row in res.value:
+                    if row != rows.get(row.discriminator):
+                        fail("segment-differs", f"validate_segment({seg['d']}) under the schedule: {row.discriminator} is "
+                             f"{row.validation_result}, in the whole run {rows.get(row.discriminator)}")  # fmt: skip
+                info["segments"] = info.get("segments", 0) + 1
+
+    for root in tree["groups"]:
+        walk(root)
     # segment groups, segments and value-pool entries have no entered input: their format constraints (if any) are
     # evaluated against the unset text (None); those evaluations are not attributed to any free-text element
     foreign = [(k, v) for k, v in sorted((whole_log - single_log).items(), key=str) if k[1] is not None][:4]
@@ -123,6 +145,8 @@ def classify(case, info):
     if info["overlap"]:
         labels.append("fc-evaluations-overlap")
     labels.append(f"context-reading-fc-methods={len(case.get('sync_fc', ()))}")
+    if info.get("segments"):
+        labels.append("validate_segment-route")
     return labels, info["overlap"] > 0
 
 
